@@ -22,6 +22,7 @@ import FV.Model.Receivers
 import FV.Proofs.Headers
 import FV.Model.Receivers2
 import FV.Proofs.Receivers2
+import FV.Proofs.Receivers2Framed
 import FV.Model.Receivers3
 import FV.Proofs.Receivers3
 
@@ -242,5 +243,52 @@ theorem c05_reply_accepted_only_if_wellformed (method bs : Bytes) (o : ReplyOutc
 /-- The client path keeps no state between replies: the stage of a reply is a function of that reply alone. -/
 theorem c05_client_stateless (garbage : List Bytes) (method w : Bytes) :
     (garbage.map (processReply method), processReply method w).2 = processReply method w := rfl
+
+end FV.C05
+
+/-! ## The adapter read loop: what the published cause means; valid traffic; agreement with C15's model -/
+namespace FV.C05
+open FV FV.Recv2
+
+/-- The read loop of this file (Go's partial operations explicit, fuel) and the read loop of C15's model
+(`FV.Framed.readAll`: whole frames of the stream, where the stream ended) agree on EVERY byte stream:
+same number of frames handed to the registry, and the value published on `Closed()` is nil exactly
+when C15's model calls the close clean. -/
+theorem c05_adapter_agrees_with_framed_model (s : Bytes) :
+    ∃ e, adapterRecv s = .ok e ∧ e.delivered = (Framed.readAll s true).1 ∧
+      causeClass e.cause = (Framed.readAll s true).2 :=
+  adapterRecv_refines_framed s
+
+/-- "… and report the cause": the adapter publishes nil only if the registry accepted every whole frame of
+the stream and no size prefix was refused; whenever it closes the connection because of what the peer
+sent, the value on `Closed()` is that error. (END_OF_FILE — the peer hanging up, also in the middle of a
+frame — is the one close that is not the receiver's doing; it is published as nil.) -/
+theorem c05_adapter_cause_reported (s : Bytes) (e : LoopEnd) (h : adapterRecv s = .ok e) :
+    e.cause = none ↔ ((Framed.deliver (Framed.deframe s).1).2 = true ∧ (Framed.deframe s).2 ≠ .badSize) := by
+  obtain ⟨e', he, _, hc⟩ := adapterLoop_refines (s.length + 1) s 0 (by omega)
+  have : e = e' := by
+    unfold adapterRecv at h
+    rw [he] at h
+    cases h; rfl
+  subst this
+  exact hc
+
+/-- Valid traffic is served: frames that fit `maxLength` and that the registry accepts are delivered one by
+one, and the peer's hang-up closes the transport with cause nil. (A connection that received garbage is
+gone; the next connection starts from this same initial state — the read loop has no other.) -/
+theorem c05_adapter_serves_valid_traffic (fs : List Bytes)
+    (hfs : ∀ f ∈ fs, f.length ≤ maxFrame ∧ (registryExecuteEmpty f).isOk = true) :
+    adapterRecv (Framed.encode fs) = .ok ⟨none, fs.length⟩ :=
+  adapterRecv_wellformed fs hfs
+
+/-! Non-vacuity: concrete inputs through the models. -/
+example : adapterRecv [0, 0, 0] = .ok ⟨none, 0⟩ := by decide
+/-- The hypothesis of `c05_adapter_serves_valid_traffic` is met by a real frame (headers `_opid: 1`). -/
+example : ∃ f : Bytes, f.length ≤ maxFrame ∧ (registryExecuteEmpty f).isOk = true :=
+  ⟨[0, 0,0,0,14, 0,0,0,5, 95,111,112,105,100, 0,0,0,1, 49], by simp [maxFrame], by
+    simp [registryExecuteEmpty, frameOpId, headersFromFrame, unmarshalHeadersFromFrame, rd32, toI32, readPairs, slice,
+      Hdrs.set, Hdrs.get?, opIdHeader, parseU64, digitsVal, Res.isOk]⟩
+example : (Recv3.processReply [112] [9]).isOk = true := by decide
+example : Stomp.recvAll (fun p => p.head? == some 0) Stomp.init [[1], [], [0, 0, 0, 1, 0]] = .ok ⟨true, 1, 1⟩ := by decide
 
 end FV.C05
